@@ -19,6 +19,7 @@ mod aggregate;
 mod ratelimit;
 mod breaker;
 mod trend;
+mod contexts;
 
 fn main() {
     let args: Vec<String> = std::env::args().collect();
@@ -54,6 +55,8 @@ fn main() {
         "rl-record" => ratelimit::record(rest),
         "breaker-replay" => breaker::replay(rest),
         "trend-replay" => trend::replay(rest),
+        "ctx-replay" => contexts::replay(rest),
+        "ctx-load" => contexts::load(rest),
         "for-expand" => misc::for_expand(rest),
         "event-file" => misc::event_file(rest),
         other => {
